@@ -79,7 +79,7 @@ func (o Op) Line() string {
 		return o.K + " " + o.Tx
 	case "put":
 		return fmt.Sprintf("put %s %s %s %s", o.Tx, pathStr(o.Path), hx(o.Key), hx(o.Val))
-	case "get", "del", "mkb", "mkbi", "rmb":
+	case "get", "del", "mkb", "mkbi", "rmb", "putnil":
 		return fmt.Sprintf("%s %s %s %s", o.K, o.Tx, pathStr(o.Path), hx(o.Key))
 	case "mvb":
 		return fmt.Sprintf("mvb %s %s %s %s", o.Tx, pathStr(o.Path), hx(o.Key), pathStr(o.Dst))
@@ -106,7 +106,7 @@ func ParseOp(line string) Op {
 		o.Tx = f[1]
 	case "put":
 		o.Tx, o.Path, o.Key, o.Val = f[1], parsePath(f[2]), unhx(f[3]), unhx(f[4])
-	case "get", "del", "mkb", "mkbi", "rmb":
+	case "get", "del", "mkb", "mkbi", "rmb", "putnil":
 		o.Tx, o.Path, o.Key = f[1], parsePath(f[2]), unhx(f[3])
 	case "mvb":
 		o.Tx, o.Path, o.Key, o.Dst = f[1], parsePath(f[2]), unhx(f[3]), parsePath(f[4])
@@ -415,6 +415,14 @@ func (e *Exec) do(o Op) string {
 			val = []byte{}
 		}
 		return errName(b.Put(key, val))
+	case "putnil":
+		// a nil slice as value (an empty value); only generated right before the bucket is deleted,
+		// because Get/cursors inside the same transaction return nil for it (indistinguishable from
+		// "missing": an API wart outside C04's reference model, see the C04 assumptions)
+		if isRoot {
+			return "err:rootop"
+		}
+		return errName(b.Put(key, nil))
 	case "get":
 		if isRoot {
 			return "err:rootop"
